@@ -360,6 +360,15 @@ pub fn exec(plan: &CompatPlan) -> RunOut {
         }
     }
     let label = format!("fixture {} ({}, written by {})", exp.name, exp.kind, exp.produced_by);
+    // an upgrade is a new process: let a fresh process open the directory first
+    if plan.seed % 2 == 0 {
+        out.bump("probe.fixture_first_opened_by_fresh_process");
+        if !crate::world::first_open_in_fresh_process(&dir) {
+            out.violations.push(viol(&["C19"], "compat.cannot_open", format!("{label}: a freshly started process of the current code cannot open it")));
+            let _ = std::fs::remove_dir_all(&dir);
+            return out;
+        }
+    }
     let mut matched: Option<World> = None;
     let mut why = String::new();
     for st in &exp.allowed {
